@@ -4,7 +4,7 @@ import SciVerif.Tie.Pins
 /-! Tie A obligations for C09 on the current source. -/
 namespace SciVerif.Tie
 -- functions the model relies on without an obligation of its own naming them (pinned by bin/mkpins):
--- PIN-ALSO: Scipipe.Task_TempDir
+-- PIN-ALSO: Scipipe.Task_TempDir Scipipe.BaseProcess_receiveOnInPorts Scipipe.BaseProcess_receiveOnInParamPorts Scipipe.Process_createTasks
 open SciVerif.TaskFS SciVerif.Generated
 
 theorem generated_cmd_fail_fatal : taskSem.cmdFailFatal = true := by decide
@@ -68,6 +68,7 @@ theorem generated_all_ops_known_c09 : taskSemKnown = true := by decide
 
 
 
+
 -- BEGIN PINS (written by bin/mkpins; do not edit by hand)
 /-- the Go functions this property's model and obligations were written against have exactly the
 pinned skeletons (SHA-256 prefix of the atom list) -/
@@ -76,6 +77,8 @@ theorem pinned_skeletons_c09 :
     [("Scipipe.#decls", "08e57e98702ecd70"),
      ("Scipipe.BaseProcess_Fail", "06794419eac40800"),
      ("Scipipe.BaseProcess_Failf", "536c85ecebfbb5bd"),
+     ("Scipipe.BaseProcess_receiveOnInParamPorts", "80f48a9a3ce80c41"),
+     ("Scipipe.BaseProcess_receiveOnInPorts", "fc9972cf4f754181"),
      ("Scipipe.Check", "8c079622ba7281b9"),
      ("Scipipe.CheckWithMsg", "9c35c41ab8e8dc71"),
      ("Scipipe.Fail", "6dc9afa8d61b0d24"),
@@ -92,6 +95,7 @@ theorem pinned_skeletons_c09 :
      ("Scipipe.OutParamPort_Failf", "f66582574c708db5"),
      ("Scipipe.OutPort_Fail", "9599b0eba9214966"),
      ("Scipipe.OutPort_Failf", "f66582574c708db5"),
+     ("Scipipe.Process_createTasks", "8c856d9ef4492f5d"),
      ("Scipipe.Task_Execute", "40fd1fec0c69deb2"),
      ("Scipipe.Task_Fail", "7efd50bffbc769dd"),
      ("Scipipe.Task_Failf", "9750abd3cdce8d29"),
